@@ -125,4 +125,19 @@ PROPS = {
                 dict(driver="lib", suite="resppath", bins={"SERVER": "server", "AGENT": "agent"}, race=True)],
         assumptions=["StdRespSpec: the wire stages keep status, body, trailer values and the values of every non-framing header field", "httputil.ReverseProxy stores canonical header keys and never issues a zero-length first write"],
     ),
+    "C17": dict(
+        technique="Lean 4 theorems on a hand model of the App Engine proxy's handlers over an abstract store (per-call statements over arbitrary store states and callers), call-order facts regenerated from the handlers' skeletons (T3) and api.yaml (T1); differential run of the full identity x backend x request x endpoint cross product against the real handlers and real stores over a fake App Engine API",
+        level_text="Proof for every store state, caller, backend ID, request ID and endpoint: a non-401 agent call implies the caller's OAuth identity is the registered backend user; a 401 reply and the unchanged state are independent of all stored requests/responses; an authorised call changes and reveals only its own backend's requests, and stores a response only for a request existing under that backend; end users are routed only to backends registered for them or for allUsers (via C18); non-admins get 403 and change nothing. Since these are per-call statements over arbitrary states they hold for calls in any order. That checkBackendID / the admin test precede every store access is regenerated from proxy.go on every run.",
+        level_note=STD_NOTE + "Modelled, not verified: the App Engine users/OAuth, datastore and memcache services (a strongly consistent in-memory fake at the API-call level; real datastore queries are eventually consistent), JSON parsing of backend definitions; /cron/delete is protected by `login: admin` in api.yaml (regenerated fact), not by code.",
+        suites=[dict(driver="app", suite="appauth", env={"VERIF_DRIVER": "1"})],
+        assumptions=["user.CurrentOAuth / user.Current / user.IsAdmin report the caller's true identity", "request IDs (App Engine request-log IDs) are unique"],
+    ),
+    "C19": dict(
+        modules=["C19", "C19b"],
+        technique="Lean 4 theorems: blob split/join round trip over the regenerated part arithmetic (goextract T2) for every size; per-call relay statements over arbitrary store states on the AppAuth model; bounded-channel termination of postResponse for every interleaving and fault combination with the capacity regenerated from the handler's skeleton (T3); end-to-end exchanges through the real handlers and real stores over a fake App Engine API with payloads around the 1,000,000-byte limits, memcache drops and store-fault rules",
+        level_text="Proof for every payload size that stored requests/responses read back byte-identical, parts never exceed the field limit and the part count is as computed; proof that a fetch under a request ID returns exactly the stored client request, that the waiting client only ever receives a response some authorised agent posted under that very ID (for every sequence of agent calls), that agents of other backends can neither fetch nor answer it (fresh IDs), that a completed request leaves the pending list, that no response means 504; proof over all interleavings and failure combinations that postResponse's goroutines never block when the error channel has room for both - capacity and goroutine structure regenerated from proxy.go - with a kernel-checked hang trace for capacity 1.",
+        level_note=STD_NOTE + "Modelled, not verified: datastore/memcache (in-memory fake; strongly consistent), http.Request.Write / ReadResponse serialisation, the 30 s polling windows (504 = no response stored; wall-clock measured only), response caching of GETs in memcache (a cached 200 is by construction an earlier response for the same user and URL) and response trailers (dropped by the App Engine proxy; trailers are C03's subject).",
+        suites=[dict(driver="app", suite="apprelay", env={"VERIF_DRIVER": "1"}, race="thorough")],
+        assumptions=["App Engine request IDs are unique (RidFresh)", "datastore Put/Get of one entity are atomic and strongly consistent by key"],
+    ),
 }
